@@ -51,6 +51,7 @@ def cases(ctx):
         yield ('ab', 'lit', 1, 10, None)       # the excluded baseline test test_rand_ab
         yield ('ab', 'host', 1, 10, ('int', 'int'))
         yield ('rand0',)
+        yield ('rand0-extreme',)
     n = ctx.scale(300, 4000)
     for i in range(n):
         r = rnd.random()
@@ -110,6 +111,20 @@ def run_case(case, ctx):
                 ctx.violation('rand() outside [0, 1) or not a number', case, detail={'value': repr(v)})
                 ok = False
                 break
+    elif kind == 'rand0-extreme':
+        # the extreme outputs of the underlying generator (largest double below 1, zero, the smallest positive doubles): sampling would never draw them
+        real = random.random
+        try:
+            for x in (1 - 2 ** -53, 1 - 2 ** -52, 1 - 3 * 2 ** -53, 0.0, 5e-324, 2 ** -53, 0.5, 0.9999999999999999, 0.999999999999999):
+                random.random = lambda x=x: x
+                v = P.eval('rand()')
+                ctx.count('draws_rand0_extreme')
+                if isinstance(v, bool) or not isinstance(v, (int, float, Decimal)) or not (0 <= v < 1):
+                    ctx.violation('rand() outside [0, 1) for an extreme output of the underlying generator', case, detail={'generator_output': repr(x), 'value': repr(v)})
+                    ok = False
+                    break
+        finally:
+            random.random = real
     elif kind == 'ab':
         _, mode, a, b, kinds = case
         if mode == 'lit':
@@ -173,7 +188,7 @@ def run_case(case, ctx):
                 break
         ctx.cov('list_shapes', '%s/%s/%s' % (kind, where, shape))
     if ok:
-        ctx.nontriv(repr(case[:4]) if kind != 'rand0' else 'rand0')
+        ctx.nontriv(repr(case[:4]) if kind not in ('rand0', 'rand0-extreme') else kind)
     if ctx.evaluations % 17 == 1:
         ctx.sample({'case': case})
 
